@@ -15,6 +15,7 @@ import (
 	"os"
 	"path/filepath"
 	"sort"
+	"strings"
 
 	"github.com/moov-io/ach"
 
@@ -43,6 +44,18 @@ var rules = map[string]string{
 }
 
 func eval(prop string, c optsdom.Case) (fails []optsdom.Fail, label string, ok bool) {
+	if strings.HasPrefix(c.Variant, "text:") {
+		// reader side (C17 only): a text the Reader accepts only under the option
+		if prop != "C17" {
+			return nil, "", false
+		}
+		r := rng.New(c.Seed)
+		f := gen.File(r, gen.Opts{Addenda: true, IAT: r.Chance(1, 3), Returns: r.Chance(1, 3), NOC: r.Chance(1, 4), MaxBatches: 3})
+		if r.Chance(1, 8) {
+			f = gen.ADVFile(r)
+		}
+		return optsdom.ServerText(f, c.Variant, r), c.Variant, true
+	}
 	g, v := c.Build()
 	if g == nil {
 		return nil, "", false
@@ -174,6 +187,11 @@ func oracle(args []string) {
 	todo := corpusCases(*corpus, *prop)
 	r := rng.New(rng.FromEnv(0x0d0d).U64())
 	todo = append(todo, optsdom.Cases(r, *n)...)
+	if *prop == "C17" {
+		for i := 0; i < *n/9; i++ {
+			todo = append(todo, optsdom.Case{Variant: gen.TextVariants[i%len(gen.TextVariants)], Seed: r.U64() >> 1})
+		}
+	}
 	dist := map[string]int{}
 	evals := 0
 	samples := []any{}
